@@ -35,6 +35,17 @@ REQUIRED_COUNTERS = ["classes", "accepted_models", "instances_checked", "attribu
                      "notpassed.under_maybe", "always_present.checked", "line_crosscheck", "nested_instances",
                      "source.parsed", "source.dsl", "int_under_float"]
 
+ANCHORS = [
+    "statham.schema.elements.base:Element.annotation",
+    "statham.schema.elements.array:Array.annotation",
+    "statham.schema.elements.array:Array.item_annotations",
+    "statham.schema.elements.composition:CompositionElement.annotation",
+    "statham.schema.elements.composition:AllOf.annotation",
+    "statham.schema.elements.meta:ObjectMeta.annotation",
+    "statham.schema.property:_Property.annotation",
+    "statham.schema.elements.composition:_attempt_schemas",
+]
+
 
 def plan(tier):
     if tier == "quick":
